@@ -160,7 +160,9 @@ fn check_str(s: &str, out: &mut CaseOut) {
                 out.comparisons += 1;
                 // the other routes are documented to refuse such text by panicking; what they must never do
                 // is hand out an id or call the text equal to one
-                if s.len() >= 3 && s.is_char_boundary(3) {
+                // (under Miri every unwinding panic costs about a second: one string in sixteen there)
+                let sampled = !cfg!(miri) || crate::rng::hash_bytes(s.as_bytes()) % 16 == 0;
+                if sampled && s.len() >= 3 && s.is_char_boundary(3) {
                     let other = guard(|| HpoTermId::from(s.to_string()).as_u32());
                     if let Ok(v) = other {
                         out.violate("C20", "from_string_accepts_garbage", format!("HpoTermId::from({s:?}.to_string()) = {v} although the text is no id (try_from refuses it)"));
